@@ -22,6 +22,8 @@
 //   args.groth.prove.<mode>  p q g h le [cg] [pi] [R] [e] [E] [coins] [peer] [log] [crs] tag => verdict [sent]
 //   args.groth.verify.<mode> p q g h le [cg] [e] [E] [coins] [peer] trunc [log] [crs] tag => verdict [sent]
 //   args.groth.witness [idx:r,…] => [pi] [R]     (witness derived by TMCG_ProveStackEquality_Groth)
+//   args.tmcg.hoogh.verify.<mode> / args.tmcg.groth.verify.<mode>: TMCG_VerifyStackEquality_Hoogh/_Groth(_noninteractive),
+//   same arguments as args.vrhe.verify / args.groth.verify with [X] [Y] = the stacks s, s2 (modes publiccoin, noninteractive)
 //   le = challenge length l_e, [cg] = commitment generators g_1..g_n (the commitment's h is the key h);
 //   the Groth verifier's [coins] are the values of its tmcg_mpz_srandomb draws (t_i, lambda, x, e — redrawn
 //   while zero —, and the batch-verification alpha) resp. of the flips' srandomm draws.
@@ -30,6 +32,8 @@
 //   trunc = 1: the peer's last line has no newline.
 // Tags: honest; cheat:<false statement>; mut:<field>:<how> (one transmitted value or statement component
 // changed); equiv:<field>:<how> (another representative of the same value: must be accepted);
+// direct-stmt:<field>:<how> (a STATEMENT component changed in a direct call of a class verifier, which does not
+// validate its statement: informational, no verdict expected; the stack-level verifiers args.tmcg.* do, there `mut:`);
 // lucky:<what> (a false statement with the one challenge value that lets it pass: soundness error made
 // visible, expected 1); unlucky:<what> (a TRUE statement and an honest prover whose coins make the verifier
 // refuse: completeness error made visible, expected 0); peer-silent / peer-stops.
@@ -294,9 +298,9 @@ void emit_vrhe_prove(Env &c, int mode, Stmt &st, const std::vector<std::string> 
 	emit(std::string("args.vrhe.prove.") + mode_name[mode] + " " + c.pqgh() + " " + std::to_string(st.r) + " " + zlist(st.R) + " " + cards(st.X1, st.X2) + " " + cards(st.Y1, st.Y2) +
 		" " + s.coins + " " + dec_lines(peer) + " " + s.log + " " + c.crs(mode) + " tag:" + tag + " => " + s.verdict + " " + dec_lines(s.lines));
 }
-void emit_vrhe_verify(Env &c, int mode, Stmt &st, const std::vector<std::string> &peer, bool trunc, const Side &s, const std::string &tag)
+void emit_vrhe_verify(Env &c, int mode, Stmt &st, const std::vector<std::string> &peer, bool trunc, const Side &s, const std::string &tag, const char *op = "args.vrhe.verify.")
 {
-	emit(std::string("args.vrhe.verify.") + mode_name[mode] + " " + c.pqgh() + " " + cards(st.X1, st.X2) + " " + cards(st.Y1, st.Y2) +
+	emit(std::string(op) + mode_name[mode] + " " + c.pqgh() + " " + cards(st.X1, st.X2) + " " + cards(st.Y1, st.Y2) +
 		" " + s.coins + " " + dec_lines(peer) + " " + b2s(trunc) + " " + s.log + " " + c.crs(mode) + " tag:" + tag + " => " + s.verdict + " " + dec_lines(s.lines));
 }
 
@@ -381,8 +385,9 @@ void vrhe_mode(Env &c, SplitMix &g, int mode, Stmt &st, const std::string &tag0,
 		if (!mutate(g, how, tgt[i], c, nm)) continue;
 		static const char *fn[4] = { "X1", "X2", "Y1", "Y2" };
 		// a multiple of p as base with a negative exponent traps inside GMP: keep such bases away from negative responses (none here)
-		std::string tag = std::string("mut:") + fn[which] + ":" + nm;
-		if (nm == "plusp" && mode != NI) tag = std::string("equiv:") + fn[which] + ":plusp";   // only used modulo p and never hashed
+		// statement inputs handed directly to the class verifier (no membership test there; the public entry points are the
+		// stack-level verifiers, see wrapper_checks): informational, no verdict expected
+		std::string tag = std::string("direct-stmt:") + fn[which] + ":" + nm;
 		Side W = vrhe_verify(c, mode, t, join_lines(P.lines), ch.script);
 		emit_vrhe_verify(c, mode, t, P.lines, false, W, tag);
 	}
@@ -501,9 +506,7 @@ void rot_case(Env &c, SplitMix &g, size_t n, uint64_t cidx)
 			if (!mutate(g, (int)g.below(NMUT), onc ? u.c[i].v : u.alpha[i].v, c, nm)) continue;
 			if (!unit_mod_p(c, u.c[i])) continue;   // a multiple of p under a negative exponent traps in GMP
 			// alpha_i + q is the same exponent (only used modulo q ... and hashed in the non-interactive mode)
-			std::string tag2 = std::string("mut:") + (onc ? "c" : "alpha") + ":" + nm;
-			if (!onc && nm == "plusq" && mode != NI) tag2 = "equiv:alpha:plusq";
-			if (onc && nm == "plusp" && mode != NI) tag2 = "equiv:c:plusp";
+			std::string tag2 = std::string("direct-stmt:") + (onc ? "c" : "alpha") + ":" + nm;   // informational (bare sub-protocol)
 			Side W = rot_verify(c, ZV_, mode, u, join_lines(P.lines), ch.script); emitV(mode, u, P.lines, W, tag2);
 		}
 	};
@@ -534,6 +537,7 @@ void script_bits(std::vector<unsigned char> &script, mpz_srcptr v, unsigned bits
 	mpz_export(tmp.data(), &cnt, 1, 1, 1, 0, v); memcpy(b.data() + (n - cnt), tmp.data(), cnt);
 	script.insert(script.end(), b.begin(), b.end());
 }
+bool g_alpha_even = false;
 // verifier coins of one Groth run: t_1..t_n, lambda, x, e (not zero), and the batch-verification alpha
 Chal make_gchal(const Env &c, SplitMix &g, int mode, size_t n, const ZV *force = NULL)
 {
@@ -544,7 +548,8 @@ Chal make_gchal(const Env &c, SplitMix &g, int mode, size_t n, const ZV *force =
 			ch.vals.push_back(v); script_bits(ch.script, v, l); ch.lines.push_back(b62(v));
 		}
 	} else if (mode == PC) { Chal f = make_chal(c, g, PC, n + 3); ch = f; }
-	Z alpha; gen_bits(alpha, g, mode == NI ? 2 * l : l); script_bits(ch.script, alpha, mode == NI ? 2 * l : l);
+	Z alpha; gen_bits(alpha, g, mode == NI ? 2 * l : l); if (g_alpha_even) mpz_clrbit(alpha, 0);
+	script_bits(ch.script, alpha, mode == NI ? 2 * l : l);
 	return ch;
 }
 std::vector<std::pair<std::string, size_t> > groth_fields(int mode, size_t n)
@@ -593,9 +598,9 @@ void emit_groth_prove(Env &c, int mode, Stmt &st, const std::vector<std::string>
 	emit(std::string("args.groth.prove.") + mode_name[mode] + " " + groth_hdr(c) + " " + ps + " " + zlist(st.R) + " " + cards(st.X1, st.X2) + " " + cards(st.Y1, st.Y2) +
 		" " + s.coins + " " + dec_lines(peer) + " " + s.log + " " + c.crs(mode) + " tag:" + tag + " => " + s.verdict + " " + dec_lines(s.lines));
 }
-void emit_groth_verify(Env &c, int mode, Stmt &st, const std::vector<std::string> &peer, bool trunc, const Side &s, const std::string &tag)
+void emit_groth_verify(Env &c, int mode, Stmt &st, const std::vector<std::string> &peer, bool trunc, const Side &s, const std::string &tag, const char *op = "args.groth.verify.")
 {
-	emit(std::string("args.groth.verify.") + mode_name[mode] + " " + groth_hdr(c) + " " + cards(st.X1, st.X2) + " " + cards(st.Y1, st.Y2) +
+	emit(std::string(op) + mode_name[mode] + " " + groth_hdr(c) + " " + cards(st.X1, st.X2) + " " + cards(st.Y1, st.Y2) +
 		" " + s.coins + " " + dec_lines(peer) + " " + b2s(trunc) + " " + s.log + " " + c.crs(mode) + " tag:" + tag + " => " + s.verdict + " " + dec_lines(s.lines));
 }
 bool groth_exp_field(const std::string &f) { return f == "f" || f == "Z" || f == "skc_f" || f == "skc_z" || f == "skc_fDelta" || f == "skc_zDelta"; }
@@ -642,14 +647,21 @@ void groth_mode(Env &c, SplitMix &g, int mode, Stmt &st, const std::string &tag0
 		Side W = groth_verify(c, mode, st, join_lines(L), ch.script);
 		emit_groth_verify(c, mode, st, L, false, W, (same ? "equiv:" : "mut:") + fn + ":minusq");
 	}
+	// ---- x - 2^200 q: there is no lower bound at all; the SKC verifier reduces modulo q before it exponentiates
+	if (!big) for (size_t pos = 0; pos < fields.size(); pos++) if (fields[pos].first == "skc_f" || fields[pos].first == "skc_zDelta") {
+		Z v, k; mpz_set_ui(k, 1); mpz_mul_2exp(k, k, 200); mpz_mul(k, k, c.A->q); mpz_sub(v, vals[pos], k);
+		std::vector<std::string> L = P.lines; L[pos] = b62(v);
+		Side W = groth_verify(c, mode, st, join_lines(L), ch.script);
+		emit_groth_verify(c, mode, st, L, false, W, "equiv:" + fields[pos].first + ":minus-2^200q");
+		if (fields[pos].first == "skc_zDelta") break; else { while (pos + 1 < fields.size() && fields[pos + 1].first == "skc_f") pos++; }
+	}
 	// ---- statement components
 	for (size_t m = 0; m < (big ? 1 : (nmut + 1) / 2); m++) {
 		int which = (int)g.below(4); size_t i = g.below(n); int how = (int)g.below(NMUT);
 		Stmt t = st; ZV &tgt = which == 0 ? t.X1 : which == 1 ? t.X2 : which == 2 ? t.Y1 : t.Y2; std::string nm;
 		if (!mutate(g, how, tgt[i], c, nm)) continue;
 		static const char *fn[4] = { "e1", "e2", "E1", "E2" };
-		std::string tag = std::string("mut:") + fn[which] + ":" + nm;
-		if (nm == "plusp" && mode != NI) tag = std::string("equiv:") + fn[which] + ":plusp";
+		std::string tag = std::string("direct-stmt:") + fn[which] + ":" + nm;   // informational, see vrhe_mode
 		Side W = groth_verify(c, mode, t, join_lines(P.lines), ch.script);
 		emit_groth_verify(c, mode, t, P.lines, false, W, tag);
 	}
@@ -705,6 +717,22 @@ void groth_case(Env &c, SplitMix &g, size_t n, uint64_t cidx, bool thorough)
 			groth_mode(c, g, INTER, t, "lucky:all-t-zero", true, 0, false, &force);
 		}
 	}
+	// ---- commitments replaced by p - c (outside the group; TestMembership is a range check): the sign disappears when
+	// the exponents applied to the commitment are even.  Interactive mode, lambda, e and alpha chosen even.
+	if (n <= 9 || thorough) {
+		ZV force(n + 3); for (size_t i = 0; i < n + 3; i++) gen_bits(force[i], g, c.le);
+		mpz_clrbit(force[n], 0); mpz_clrbit(force[n + 2], 0); if (!mpz_sgn(force[n + 2])) mpz_set_ui(force[n + 2], 2);
+		g_alpha_even = true; Chal ch = make_gchal(c, g, INTER, n, &force); g_alpha_even = false;
+		Side P = groth_prove(c, INTER, st, join_lines(ch.lines));
+		std::vector<std::pair<std::string, size_t> > fields = groth_fields(INTER, n); ZV vals = values_of(P.lines);
+		if (fields.size() == P.lines.size()) for (size_t pos = 0; pos < fields.size(); pos++) {
+			const std::string &fn = fields[pos].first;
+			if (fn != "c" && fn != "cd" && fn != "skc_cd" && fn != "skc_ca" && fn != "skc_cDelta") continue;
+			Z v; mpz_sub(v, c.A->p, vals[pos]); std::vector<std::string> L = P.lines; L[pos] = b62(v);
+			Side W = groth_verify(c, INTER, st, join_lines(L), ch.script);
+			emit_groth_verify(c, INTER, st, L, false, W, "mut:" + fn + ":negelem-even");
+		}
+	}
 	// ---- completeness error made visible (interactive mode: the harness chooses the challenges and the prover's first coins):
 	// honest prover, true statement, yet refused
 	if (cidx % 3 == 0) {
@@ -750,18 +778,21 @@ void wrapper_checks(Env &c, SplitMix &g, bool groth, Stmt &st, TMCG_Stack<VTMF_C
 				else ok = (mode == PC) ? tmV.TMCG_VerifyStackEquality_Hoogh(a, b, c.B.get(), c.vV.get(), in, out) : tmV.TMCG_VerifyStackEquality_Hoogh_noninteractive(a, b, c.B.get(), c.vV.get(), in);
 				return b2s(ok); }, join_lines(P.lines), ch.script);
 			c.rb_bits = 0; c.flips_possible = true; return r; };
+		const char *wop = groth ? "args.tmcg.groth.verify." : "args.tmcg.hoogh.verify.";
+		auto wemit = [&](Stmt &t, const Side &V, const std::string &tag) { if (groth) emit_groth_verify(c, mode, t, P.lines, false, V, tag, wop); else emit_vrhe_verify(c, mode, t, P.lines, false, V, tag, wop); };
 		Side Vw = wverify(s, s2);
-		if (groth) emit_groth_verify(c, mode, st, P.lines, false, Vw, "honest"); else emit_vrhe_verify(c, mode, st, P.lines, false, Vw, "honest");
-		// a component of the INPUT stack negated (p - x: outside the group)
-		for (int comp = 0; comp < 2; comp++) {
-			size_t j = g.below(n); TMCG_Stack<VTMF_Card> sx = s; Stmt t = st;
-			if (comp == 0) { mpz_sub(sx.stack[j].c_1, c.A->p, sx.stack[j].c_1); mpz_set(t.X1[j], sx.stack[j].c_1); } else { mpz_sub(sx.stack[j].c_2, c.A->p, sx.stack[j].c_2); mpz_set(t.X2[j], sx.stack[j].c_2); }
-			Side Vt = wverify(sx, s2); std::string tag = std::string("mut:") + (groth ? (comp ? "e2" : "e1") : (comp ? "X2" : "X1")) + ":negelem-wrapper";
-			if (groth) emit_groth_verify(c, mode, t, P.lines, false, Vt, tag); else emit_vrhe_verify(c, mode, t, P.lines, false, Vt, tag);
+		wemit(st, Vw, "honest");
+		// one component of the input stack s resp. of the shuffled stack s2 changed (mutation catalogue; p - x first):
+		// the stack-level verifiers test the membership of both stacks before they look at the argument
+		for (int k = 0; k < 8; k++) {
+			int which = k < 4 ? k : (int)g.below(4); size_t j = g.below(n); int how = k < 4 ? 10 : (int)g.below(NMUT);
+			TMCG_Stack<VTMF_Card> sx = s, sy = s2; Stmt t = st; std::string hn;
+			mpz_ptr tgt = which == 0 ? sx.stack[j].c_1 : which == 1 ? sx.stack[j].c_2 : which == 2 ? sy.stack[j].c_1 : sy.stack[j].c_2;
+			if (!mutate(g, how, tgt, c, hn)) continue;
+			mpz_set(which == 0 ? t.X1[j].v : which == 1 ? t.X2[j].v : which == 2 ? t.Y1[j].v : t.Y2[j].v, tgt);
+			static const char *fn[4] = { "s_c1", "s_c2", "s2_c1", "s2_c2" };
+			Side Vt = wverify(sx, sy); wemit(t, Vt, std::string("mut:") + fn[which] + ":" + hn);
 		}
-		// a component of the SHUFFLED stack negated: refused by the wrapper's membership test before the argument is looked at
-		{ size_t j = g.below(n); TMCG_Stack<VTMF_Card> sy = s2; mpz_sub(sy.stack[j].c_1, c.A->p, sy.stack[j].c_1);
-		  Side Vt = wverify(s, sy); emit(std::string("prop.args.wrapper ") + nm + " " + mode_name[mode] + " " + std::to_string(n) + " twisted-s2 => " + Vt.verdict); }
 	}
 }
 
